@@ -491,7 +491,7 @@ Definition acc_iv (i : inst) : list N := match i with IBlock _ _ iv _ => iv | IS
 (* ---------- who owns the argument buffers ----------
    The constructors are functions of VALUES: new_crypt / new_direct cannot modify the key or
    iv they are given; the key is consumed there (key schedule, or copy into the salsa20
-   arrays) and the instance keeps its OWN copy of the iv (since the repair 50b8642; before it
+   arrays) and the instance keeps its OWN copy of the iv (since the repair 154b3da; before it
    the block-cipher wrappers kept the caller's slice).  No step reads the caller's buffers
    again.  To say so explicitly the caller's buffers are part of a little world in which the
    caller may write into them between the calls. *)
